@@ -50,12 +50,153 @@ pub fn parse_body(piece: &[u8]) -> Option<u64> {
     Some(vid)
 }
 
+/// How a scenario's records look on disk.
+#[derive(Clone, Copy, Debug, PartialEq, Eq)]
+pub enum Codec {
+    /// `vid:len:payload` written by the harness's own writer (`set_with_writer`)
+    Custom,
+    /// the default newline-delimited JSON writer of `emit_file::set`
+    Json,
+}
+
+const JSON_HEAD: &[u8] = br#"{"mdl":"e2e","msg":"r","tpl":"r","len":"#;
+
+fn pad_of(vid: u64, len: usize) -> String {
+    (0..len).map(|i| payload_byte(vid, i) as char).collect()
+}
+
+impl Codec {
+    /// The exact bytes (without separator) of the ordinary event `vid`.
+    pub fn body(self, vid: u64, len: usize) -> Vec<u8> {
+        match self {
+            Codec::Custom => record_body(vid, len),
+            // the default writer: well-known fields first, then the properties in key order
+            Codec::Json => format!(r#"{{"mdl":"e2e","msg":"r","tpl":"r","len":{},"pad":"{}","vid":{}}}"#, len, pad_of(vid, len), vid).into_bytes(),
+        }
+    }
+
+    /// `Some(vid)` iff `piece` is byte for byte the record of one ordinary event.
+    pub fn parse(self, piece: &[u8]) -> Option<u64> {
+        match self {
+            Codec::Custom => parse_body(piece),
+            Codec::Json => {
+                let v: serde_json::Value = serde_json::from_slice(piece).ok()?;
+                let vid = v.get("vid")?.as_u64()?;
+                let len = v.get("len")?.as_u64()? as usize;
+                (self.body(vid, len) == piece).then_some(vid)
+            }
+        }
+    }
+
+    /// Could `piece` be the beginning of one ordinary record that is still being written?
+    pub fn plausible_start(self, piece: &[u8]) -> bool {
+        match self {
+            Codec::Custom => is_plausible_record_start(piece),
+            Codec::Json => {
+                // prefix of: HEAD digits `,"pad":"` lower-case* `","vid":` digits `}`
+                enum Seg {
+                    Lit(&'static [u8]),
+                    Digits,
+                    Lower,
+                }
+                let segs = [Seg::Lit(JSON_HEAD), Seg::Digits, Seg::Lit(br#","pad":""#), Seg::Lower, Seg::Lit(br#"","vid":"#), Seg::Digits, Seg::Lit(b"}")];
+                let mut i = 0;
+                for seg in segs {
+                    if i == piece.len() {
+                        return true;
+                    }
+                    match seg {
+                        Seg::Lit(l) => {
+                            let n = l.len().min(piece.len() - i);
+                            if piece[i..i + n] != l[..n] {
+                                return false;
+                            }
+                            i += n;
+                        }
+                        Seg::Digits => {
+                            let n = piece[i..].iter().take_while(|b| b.is_ascii_digit()).count();
+                            if n == 0 {
+                                return false;
+                            }
+                            i += n;
+                        }
+                        Seg::Lower => i += piece[i..].iter().take_while(|b| b.is_ascii_lowercase()).count(),
+                    }
+                }
+                i == piece.len()
+            }
+        }
+    }
+}
+
 /// Is `piece` a proper prefix of some well-formed record body (+ separator)?
 pub fn is_record_prefix(piece: &[u8], rest: &[u8], sep: u8) -> bool {
+    is_record_prefix_c(piece, rest, sep, Codec::Custom)
+}
+
+pub fn is_record_prefix_c(piece: &[u8], rest: &[u8], sep: u8, codec: Codec) -> bool {
     let mut cand = piece.to_vec();
     let upto = rest.iter().position(|b| *b == sep).map(|p| p + 1).unwrap_or(rest.len());
     cand.extend_from_slice(&rest[..upto]);
-    cand.last() == Some(&sep) && parse_body(&cand[..cand.len() - 1]).is_some()
+    cand.last() == Some(&sep) && codec.parse(&cand[..cand.len() - 1]).is_some()
+}
+
+/// How an event's formatting fails on the emitting thread (`fk` property; 0 = it does not).
+/// Custom writer: 1 = half of the record is written into the `FileBuf`, then `Err`; 2 = `Err` at once;
+/// 3 = the whole record AND the separator are written, then `Err`; 4 = one byte, then `Err`.
+/// Default JSON writer: 1 = a template hole whose `Display` writes some text and then fails; 2 = a hole whose
+/// `Display` fails at once; 3 = a `Debug`-captured property that writes some text and fails; 4 = a
+/// `Display`-captured property (not in the template) that writes some text and fails.
+pub const FAIL_KINDS: u64 = 4;
+
+pub struct PartialDisplay(pub u64, pub bool);
+
+impl std::fmt::Display for PartialDisplay {
+    fn fmt(&self, f: &mut std::fmt::Formatter) -> std::fmt::Result {
+        if self.1 {
+            write!(f, "partial-of-{}-{}", self.0, pad_of(self.0, 9))?;
+        }
+        Err(std::fmt::Error)
+    }
+}
+
+impl std::fmt::Debug for PartialDisplay {
+    fn fmt(&self, f: &mut std::fmt::Formatter) -> std::fmt::Result {
+        std::fmt::Display::fmt(self, f)
+    }
+}
+
+const BAD_TPL: &[emit::template::Part<'static>] = &[emit::template::Part::text("bad "), emit::template::Part::hole("bad")];
+
+/// Emit one event: an ordinary one (`fk == 0`) or one whose formatting fails part-way.
+pub fn emit_e2e(files: &FileSet, codec: Codec, vid: u64, len: usize, fk: u64) {
+    use emit::Emitter as _;
+    use emit::Value;
+    let mdl = emit::Path::new_raw("e2e");
+    match (codec, fk) {
+        (Codec::Custom, _) => files.emit(emit::Event::new(mdl, emit::Template::literal("r"), emit::Empty, [("vid", vid), ("len", len as u64), ("fk", fk)])),
+        (Codec::Json, 0) => {
+            let pad = pad_of(vid, len);
+            files.emit(emit::Event::new(
+                mdl,
+                emit::Template::literal("r"),
+                emit::Empty,
+                [("vid", Value::from(vid)), ("len", Value::from(len as u64)), ("pad", Value::from(&*pad))],
+            ))
+        }
+        (Codec::Json, 1) | (Codec::Json, 2) => {
+            let bad = PartialDisplay(vid, fk == 1);
+            files.emit(emit::Event::new(mdl, emit::Template::new(BAD_TPL), emit::Empty, [("vid", Value::from(vid)), ("bad", Value::from_display(&bad))]))
+        }
+        (Codec::Json, 3) => {
+            let bad = PartialDisplay(vid, true);
+            files.emit(emit::Event::new(mdl, emit::Template::literal("r"), emit::Empty, [("vid", Value::from(vid)), ("bad", Value::from_debug(&bad)), ("len", Value::from(len as u64))]))
+        }
+        (Codec::Json, _) => {
+            let bad = PartialDisplay(vid, true);
+            files.emit(emit::Event::new(mdl, emit::Template::literal("r"), emit::Empty, [("vid", Value::from(vid)), ("bad", Value::from_display(&bad)), ("len", Value::from(len as u64))]))
+        }
+    }
 }
 
 /// The writer handed to `set_with_writer`: formats `vid:len:payload`, appends the separator
@@ -69,7 +210,19 @@ pub fn writer(
     move |buf, evt| {
         let vid: u64 = evt.props().pull("vid").ok_or_else(|| io::Error::new(io::ErrorKind::Other, "no vid"))?;
         let len: u64 = evt.props().pull("len").unwrap_or(0);
-        if fail_mod > 0 && vid % fail_mod == fail_mod - 1 {
+        let fk: u64 = evt.props().pull("fk").unwrap_or(0);
+        if fk > 0 || (fail_mod > 0 && vid % fail_mod == fail_mod - 1) {
+            // fail part-way: bytes already in the buffer must never reach a file
+            let body = record_body(vid, len as usize);
+            match fk {
+                1 => buf.extend_from_slice(&body[..body.len() / 2]),
+                3 => {
+                    buf.extend_from_slice(&body);
+                    buf.extend_from_slice(sep);
+                }
+                4 => buf.push(body[0]),
+                _ => {}
+            }
             format_failures.fetch_add(1, Ordering::SeqCst);
             return Err(io::Error::new(io::ErrorKind::Other, "scripted format failure"));
         }
@@ -114,13 +267,17 @@ pub fn metric(m: &BTreeMap<String, u64>, name: &str) -> u64 {
 
 /// vids of all records that are complete (body + separator) inside synced bytes.
 pub fn synced_vids(st: &FsState, sep: u8) -> std::collections::HashSet<u64> {
+    synced_vids_c(st, sep, Codec::Custom)
+}
+
+pub fn synced_vids_c(st: &FsState, sep: u8, codec: Codec) -> std::collections::HashSet<u64> {
     let mut out = std::collections::HashSet::new();
     for node in st.files.values() {
         let b = &node.synced;
         let mut s = 0;
         for (i, c) in b.iter().enumerate() {
             if *c == sep {
-                if let Some(v) = parse_body(&b[s..i]) {
+                if let Some(v) = codec.parse(&b[s..i]) {
                     out.insert(v);
                 }
                 s = i + 1;
@@ -153,6 +310,10 @@ pub fn is_plausible_record_start(piece: &[u8]) -> bool {
 /// `worker_may_be_writing`: the snapshot was taken while the worker thread can be in the middle of
 /// a `write_all`, so an unterminated tail that is the beginning of one well-formed record is not judged.
 pub fn bad_pieces(st: &FsState, sep: u8, worker_may_be_writing: bool) -> Vec<(String, usize, usize, String)> {
+    bad_pieces_c(st, sep, worker_may_be_writing, Codec::Custom)
+}
+
+pub fn bad_pieces_c(st: &FsState, sep: u8, worker_may_be_writing: bool, codec: Codec) -> Vec<(String, usize, usize, String)> {
     let mut bad = Vec::new();
     for (path, node) in st.files.iter() {
         let content = node.content();
@@ -162,11 +323,17 @@ pub fn bad_pieces(st: &FsState, sep: u8, worker_may_be_writing: bool) -> Vec<(St
             if i == content.len() || content[i] == sep {
                 let terminated = i < content.len();
                 let piece = &content[s..i];
-                if !piece.is_empty() && !(terminated && parse_body(piece).is_some()) {
-                    let justified = st.cuts.iter().any(|c| c.path == *path && c.offset == i && is_record_prefix(piece, &c.rest, sep))
-                        || (worker_may_be_writing && !terminated && is_plausible_record_start(piece));
+                if !piece.is_empty() && !(terminated && codec.parse(piece).is_some()) {
+                    let justified = st.cuts.iter().any(|c| c.path == *path && c.offset == i && is_record_prefix_c(piece, &c.rest, sep, codec))
+                        || (worker_may_be_writing && !terminated && codec.plausible_start(piece));
                     if !justified {
-                        bad.push((path.clone(), s, i, vcommon::show_bytes(&piece[..piece.len().min(48)])));
+                        // show what the piece would have been had a logged cut at this offset not interrupted it
+                        let mut shown = piece.to_vec();
+                        if let Some(c) = st.cuts.iter().find(|c| c.path == *path && c.offset == i) {
+                            let upto = c.rest.iter().position(|b| *b == sep).unwrap_or(c.rest.len());
+                            shown.extend_from_slice(&c.rest[..upto]);
+                        }
+                        bad.push((path.clone(), s, i, vcommon::show_bytes(&shown[..shown.len().min(160)])));
                     }
                 }
                 s = i + 1;
